@@ -601,13 +601,20 @@ def _check_ast(m, ast):
             continue
         cpos = [i for i, st in enumerate(p) if i > 0 and st[0] == "c"]
         if cpos:
-            if cpos[0] != len(p) - 1:
-                raise ModelReject("computed key must be the last step")
-            base = p[:-1]
-            if base not in spec.children or not all(c in spec.leaf_type for c in spec.children[base]):
-                raise ModelReject("computed key needs a container of leaves")
-            if p[-1][1] not in spec.leaf_type:
+            if len(cpos) > 1 or cpos[0] < len(p) - 2:
+                raise ModelReject("one computed key, as the last step or the last but one")
+            base = p[:cpos[0]]
+            if p[cpos[0]][1] not in spec.leaf_type:
                 raise ModelReject("key location must be a leaf")
+            if base not in spec.children:
+                raise ModelReject("computed key needs a container")
+            if cpos[0] == len(p) - 1:
+                if not all(c in spec.leaf_type for c in spec.children[base]):
+                    raise ModelReject("computed key needs a container of leaves")
+            else:
+                # rows[<key>][field]: every element is a record holding that field as a leaf
+                if not all(c in spec.children and (c + (p[-1],)) in spec.leaf_type for c in spec.children[base]):
+                    raise ModelReject("computed key followed by a field needs a list of records with that field")
         elif p not in spec.leaf_type and p not in spec.containers:
             raise ModelReject("unknown location " + path_str(p))
 
